@@ -323,7 +323,7 @@ def gate(ctx, binp, drv):
         tabs[k] = (t[0][4:], t[1][4:])
     idx_lines = [f"{2 * i + d} fft64 idx k={k} dir={'fi'[d]}" for i, k in enumerate(Ks) for d in (0, 1)]
     _, xout, _ = ctx.run_lines(drv, [], idx_lines)
-    tau_bits = 50
+    tau_bits = 51  # Fft64.τ51 of the numeric theorems (Props/C07: fft64_domain_numeric)
     tau = ONE >> tau_bits
     acc = {}
     worst_all = 0
